@@ -13,6 +13,7 @@ from __future__ import annotations
 import random
 import sys
 import threading
+import time
 
 import common_check as cc
 import engine_corr as ec
@@ -129,6 +130,9 @@ def run(ctx):
     exps = []
     samples = []
     n_sched = ctx.budget(1500, 20000)
+    t0 = time.time()
+    phase = {}
+    slow_skipped = [0]
     for k in range(n_sched):
         gr = gg.grammar(depth=3)
         strings = G.strings_for(rng, gr, 3, maxlen=8)
@@ -139,7 +143,12 @@ def run(ctx):
             reqs.append((rng.choice(["lparse", "parse", "parse_all"]), s, rng.randint(0, min(2, len(s)))))
         if rng.random() < 0.5:
             reqs[1] = reqs[0]  # identical concurrent requests: the half-filled-entry scenario
-        seq = sequential(P, gr, reqs)
+        # a grammar on which the real code needs more than a few CPU seconds for these short inputs is a matter for C12
+        # (work bound, known finding F14): skipped and counted here
+        seq = ec.with_budget(ec.CASE_BUDGET_S, lambda: sequential(P, gr, reqs), None)
+        if seq is None:
+            slow_skipped[0] += 1
+            continue
         cls, rules = G.build(P, gr)
         limit = rng.choice([None, 1, 1, 2])
         results, sw, hung = controlled_run(P, rules, reqs, rng, limit)
@@ -161,6 +170,8 @@ def run(ctx):
         exps.append((gr, exp))
         if len(samples) < 2:
             samples.append({"grammar": repr(gr), "requests": reqs, "limit": limit, "switches": sw})
+    phase['schedules_s'] = round(time.time() - t0, 1)
+    t0 = time.time()
     # (b) stress
     old = sys.getswitchinterval()
     sys.setswitchinterval(1e-6)
@@ -170,7 +181,12 @@ def run(ctx):
             gr = gg.grammar(depth=3)
             strings = G.strings_for(rng, gr, 4, maxlen=10)
             reqs = [(rng.choice(["lparse", "parse"]), rng.choice(strings), 0) for _ in range(16)]
-            seq = sequential(P, gr, reqs)
+            # a grammar on which the real code needs more than a few CPU seconds for these short inputs is a matter for C12
+        # (work bound, known finding F14): skipped and counted here
+        seq = ec.with_budget(ec.CASE_BUDGET_S, lambda: sequential(P, gr, reqs), None)
+        if seq is None:
+            slow_skipped[0] += 1
+            continue
             cls, rules = G.build(P, gr)
             for r_ in c08.repetitions(P, rules):
                 r_.lparse_cache.max_size = rng.choice([None, 1, 2])
@@ -198,13 +214,20 @@ def run(ctx):
                                {"kind": "stress", "grammar": gr, "requests": reqs, "results": results}, key="stress:" + lib.digest([gr, reqs]))
     finally:
         sys.setswitchinterval(old)
+    phase['stress_s'] = round(time.time() - t0, 1)
+    t0 = time.time()
     # (c) generator interleavings / abandonment
     gen_evals = 0
     for k in range(ctx.budget(600, 6000)):
         gr = gg.grammar(depth=3)
         strings = G.strings_for(rng, gr, 3, maxlen=8)
         reqs = [("lparse", rng.choice(strings), 0) for _ in range(3)]
-        seq = sequential(P, gr, reqs)
+        # a grammar on which the real code needs more than a few CPU seconds for these short inputs is a matter for C12
+        # (work bound, known finding F14): skipped and counted here
+        seq = ec.with_budget(ec.CASE_BUDGET_S, lambda: sequential(P, gr, reqs), None)
+        if seq is None:
+            slow_skipped[0] += 1
+            continue
         cls, rules = G.build(P, gr)
         gens = []
         for q in reqs:
@@ -246,7 +269,10 @@ def run(ctx):
                     rep += 1
                     ctx.report("interleaved generator yielded %r, sequential listing starts %r" % (gotp[:2], want[:2]),
                                {"kind": "generators-prefix", "grammar": gr, "requests": reqs}, key="gensp:" + lib.digest([gr, reqs]))
+    phase['generators_s'] = round(time.time() - t0, 1)
+    t0 = time.time()
     outs = lib.run_driver_parallel(blocks)
+    phase['model_s'] = round(time.time() - t0, 1)
     dis = 0
     csamples = []
     for (gr, exp), out in zip(exps, outs):
@@ -257,6 +283,7 @@ def run(ctx):
                     csamples.append({"grammar": gr, "request": q, "implementation": got, "model": ln})
     ctx.corr_samples = csamples
     ctx.coverage.update({
+        "phase_seconds": phase, "slow_grammars_skipped": slow_skipped[0],
         "evaluations": evals + stress_evals + gen_evals,
         "distinct_nontrivial": switches_total,
         "rule": "(a) %d random token-passing schedules of 2-4 threads over shared grammar objects, a switch possible before every cache lookup/store, half with identical "
